@@ -35,10 +35,14 @@ out.append("| seeded change | breaks | what it needs to manifest | confirmed (de
 out.append("|---|---|---|---|---|---|")
 for mp in sorted(glob.glob(os.path.join(ROOT, "seeded", "*", "meta.json"))):
     m = json.load(open(mp)); name = os.path.basename(os.path.dirname(mp))
-    ev = (m.get("evaluations") or [{}])[-1]
-    conf = ev.get("confirm", {})
+    evs = m.get("evaluations") or [{}]
+    ev = evs[-1]
+    conf = next((e["confirm"] for e in reversed(evs) if e.get("confirm")), {})
+    first_miss = any(not e.get("detected_by") for e in evs[:-1] if e.get("checks"))
     cf = "yes" if conf.get("demo_fails_with_patch") and conf.get("demo_passes_without_patch") else ("n/a" if not conf else "NO")
     det = ", ".join(ev.get("detected_by", [])) or "**missed**"
+    if first_miss and ev.get("detected_by"):
+        det += " (missed at first; check strengthened)"
     how = ""
     for c, o in (ev.get("checks") or {}).items():
         for l in o.get("tail", []):
